@@ -89,6 +89,7 @@ fn main() {
     let mut drop_thread: Option<std::thread::JoinHandle<()>> = None;
     let mut blocked: Option<std::thread::JoinHandle<bool>> = None;
     let mut outs: Vec<String> = Vec::new();
+    let mut dropf_pending = false;
     for op in toks[sep + 1..].split(|t| *t == ";") {
         if op.is_empty() { continue; }
         let nplus = op.iter().rev().take_while(|t| t.starts_with('+')).count();
@@ -131,7 +132,9 @@ fn main() {
                     g = sh.cv.wait_timeout(g, deadline - now).unwrap().0;
                 }
             }
-            "drop" => {
+            "drop" | "dropf" => {
+                // (`dropf`: the queue is full — the guard waits in `send_timeout` for room, which the next gate op makes)
+                if op[0] == "dropf" { dropf_pending = true; }
                 if let Some(gd) = guard.take() {
                     let entered = Arc::new(std::sync::atomic::AtomicBool::new(false));
                     let e2 = entered.clone();
@@ -161,6 +164,11 @@ fn main() {
             }
             if !wait_for(&sh, cursor, w) { out.push_str(":NOWAIT"); }
             if w == "x" { if let Some(h) = drop_thread.take() { let _ = h.join(); } }
+        }
+        if dropf_pending && (op[0] == "gw" || op[0] == "gf") {
+            // room has been made: the waiting guard enqueues its Shutdown now (not observable from outside: give it a moment)
+            std::thread::sleep(Duration::from_millis(30));
+            dropf_pending = false;
         }
         let stuck = out.contains("NOWAIT") || out.contains("TIMEOUT");
         outs.push(out);
